@@ -22,7 +22,7 @@
    by metamorphic pairs on the real code. *)
 Require Import Calc.Base Calc.Bytecode Calc.Value Calc.FloatText Calc.Ast Calc.Compile Calc.VM Calc.Sem Calc.SemProofs.
 Require Import Calc.ExprSem Calc.ExprVM Calc.ExprCorrect Calc.ExprTop Calc.ExprAssign Calc.ExprLen Calc.ExprSession
-        Calc.StmtSem Calc.StmtVM Calc.StmtCorrect Calc.StmtTop.
+        Calc.StmtSem Calc.StmtRel Calc.StmtVM Calc.StmtCorrect Calc.StmtTop.
 Open Scope Z_scope.
 
 (* x = x + 1  and  x = 1 + x  are the same computation on ints and floats *)
@@ -138,3 +138,45 @@ Theorem C12_inc_forms : forall G g,
   den G (NBin "+" (NName g) (NInt 1)) = den G (NBin "+" (NInt 1) (NName g)).
 Proof. intros G g. rewrite den_inc_left, den_inc_right. symmetry. apply arith_add_1_comm. Qed.
 Print Assumptions C12_inc_forms.
+
+(* ---- through a temporary variable ---- *)
+(* `e op e`  versus  `t = e` then `t op t`: the second statement, run where t holds e's value, gives what
+   `e op e` gives (sem_simple is what the compiled statements realise: C01_simple_statement) *)
+Theorem C12_same_operands_via_temp : forall G op c e t a,
+  binop_opcode op = Some c -> den G e = Ok a -> is_nil a = false ->
+  fst (sem_simple G (NAssign (NName t) e)) = sassoc_set G t a /\
+  den (sassoc_set G t a) (NBin op (NName t) (NName t)) = den G (NBin op e e).
+Proof.
+  intros G op c e t a Hc He Hn. split.
+  - cbn [sem_simple]. rewrite He, Hn. reflexivity.
+  - cbn [den]. rewrite Hc, He, gval_set_same. reflexivity.
+Qed.
+Print Assumptions C12_same_operands_via_temp.
+
+(* when e fails, `t = e` fails with the same error as `e op e` and binds nothing *)
+Theorem C12_same_operands_via_temp_error : forall G op c e t err,
+  binop_opcode op = Some c -> den G e = Fail err ->
+  sem_simple G (NAssign (NName t) e) = (G, Fail err) /\ den G (NBin op e e) = Fail err.
+Proof.
+  intros G op c e t err Hc He. split.
+  - cbn [sem_simple]. rewrite He. reflexivity.
+  - cbn [den]. rewrite Hc, He. reflexivity.
+Qed.
+Print Assumptions C12_same_operands_via_temp_error.
+
+(* `x = x + 1`  versus  `t = x` then `x = t + 1`  (t another variable): same value, same binding of x *)
+Theorem C12_increment_via_temp : forall G x t,
+  t <> x -> is_nil (gval G x) = false ->
+  let G1 := fst (sem_simple G (NAssign (NName t) (NName x))) in
+  snd (sem_simple G1 (NAssign (NName x) (NBin "+" (NName t) (NInt 1)))) =
+  snd (sem_simple G (NAssign (NName x) (NBin "+" (NName x) (NInt 1)))) /\
+  gval (fst (sem_simple G1 (NAssign (NName x) (NBin "+" (NName t) (NInt 1))))) x =
+  gval (fst (sem_simple G (NAssign (NName x) (NBin "+" (NName x) (NInt 1))))) x.
+Proof.
+  intros G x t Hne Hn. cbv zeta. cbn [sem_simple den]. rewrite Hn. cbn [fst snd].
+  change (binop_opcode "+") with (Some ADD). cbn [den]. rewrite gval_set_same.
+  destruct (apply_binop ADD (gval G x) (VInt 1)) as [y|err]; cbn [fst snd].
+  - destruct (is_nil y); cbn [fst snd]; [split; [reflexivity|apply gval_set_other; exact Hne]|]. split; [reflexivity|]. rewrite !gval_set_same. reflexivity.
+  - split; [reflexivity|]. apply gval_set_other. exact Hne.
+Qed.
+Print Assumptions C12_increment_via_temp.
